@@ -120,7 +120,9 @@ var targetMix = func() []string {
 	return m
 }()
 
-func cliEnabled() bool { return hx.Thorough() && os.Getenv("VERIF_DESYNC_BIN") != "" }
+// the commands' own plumbing (which chunks are handed to the store, option handling) is only reached through
+// the binary: both tiers drive it, the quick tier for a smaller share of its cases
+func cliEnabled() bool { return os.Getenv("VERIF_DESYNC_BIN") != "" }
 
 // ------------------------------------------------------------------ generators
 
@@ -242,7 +244,7 @@ func genFaults(t *rapid.T, op string) []Fault {
 }
 
 func genCase(t *rapid.T) Case {
-	if cliEnabled() && rapid.IntRange(0, 7).Draw(t, "cli") == 0 {
+	if cliEnabled() && rapid.IntRange(0, hx.Pick(29, 7)).Draw(t, "cli") == 0 {
 		if rapid.IntRange(0, 5).Draw(t, "cliindex") == 0 {
 			return genCLIIndex(t)
 		}
@@ -1019,7 +1021,10 @@ func TestMain(m *testing.M) {
 		childMain(job) // never returns
 	}
 	if cliEnabled() {
-		spec.Required = append(spec.Required, "op:cli-make", "op:cli-chop", "op:cli-cache", "op:cli-tar", "cli:readback", "cli:chunk>256KiB", "op:cli-index", "cli-index:first-put-fails-then-ok", "cli:delivered-500", "cli:exit-0", "cli:exit-nonzero")
+		spec.Required = append(spec.Required, "op:cli-make", "op:cli-chop", "op:cli-cache", "op:cli-tar", "cli:readback", "cli:null-chunk", "op:cli-index", "cli:delivered-500", "cli:exit-0", "cli:exit-nonzero")
+		if hx.Thorough() {
+			spec.Required = append(spec.Required, "cli:chunk>256KiB", "cli-index:first-put-fails-then-ok")
+		}
 	}
 	hx.Main(m)
 }
